@@ -371,7 +371,8 @@ def _q19m(n, naming, dup):
     for _ in range(2):
         wf = Workflow(working_dir=WD)
         if dup and n >= 1:
-            pre = "make_0" if naming == 0 else ("nm_0" if naming == 1 else "it0")   # naming 3 is handled above
+            # the first name map generates (whatever the naming scheme is: learnt from a scratch workflow) is already taken
+            pre = Workflow(working_dir=WD).map(make, items, name=name)[0].name
             wf.target(pre, inputs=[], outputs=[])
             try:
                 wf.map(make, items, name=name)
